@@ -641,44 +641,6 @@ theorem Inv.addModel {hm : HM} (h : Inv hm) (m : Nat) (o : Obj) (hf : o.Fresh) :
 
 /-! #### remove_transition -/
 
-def Obj.dropInst (o : Obj) (e : Name) : Obj := { o with inst := kdel e o.inst }
-
-theorem delattr_some {o o' : Obj} {e : Name} (h : o.delattr e = some o') : o' = o.dropInst e ∧ (kget e o.inst).isSome := by
-  unfold Obj.delattr at h
-  split at h
-  · rename_i hs; injection h with h; exact ⟨h.symm, hs⟩
-  · cases h
-
-/-- what the `delattr` loop leaves behind: every object is either untouched or has lost the entry,
-the keys are the same; when the loop completes every object has lost it and had it before -/
-theorem delLoop_spec (e : Name) : ∀ (l : List (Nat × Obj)),
-    keys (delLoop e l).1 = keys l ∧
-    (∀ m o', (m, o') ∈ (delLoop e l).1 → ∃ o, (m, o) ∈ l ∧ (o' = o ∨ (o' = o.dropInst e ∧ (kget e o.inst).isSome))) ∧
-    ((delLoop e l).2 = true → ∀ m o', (m, o') ∈ (delLoop e l).1 → ∃ o, (m, o) ∈ l ∧ o' = o.dropInst e ∧ (kget e o.inst).isSome)
-  | [] => ⟨rfl, (fun m o' h => by cases h), (fun _ m o' h => by cases h)⟩
-  | (m0, o0) :: r => by
-    obtain ⟨ik, ia, ib⟩ := delLoop_spec e r
-    unfold delLoop
-    cases hd : o0.delattr e with
-    | none =>
-      refine ⟨rfl, ?_, by intro h; cases h⟩
-      intro m o' h; exact ⟨o', h, Or.inl rfl⟩
-    | some o1 =>
-      obtain ⟨rfl, hs⟩ := delattr_some hd
-      refine ⟨by simp only [keys, List.map_cons] at ik ⊢; rw [ik], ?_, ?_⟩
-      · intro m o' h
-        rcases List.mem_cons.mp h with h | h
-        · injection h with h1 h2; subst h1; subst h2
-          exact ⟨o0, List.mem_cons_self .., Or.inr ⟨rfl, hs⟩⟩
-        · obtain ⟨o, ho, hc⟩ := ia m o' h
-          exact ⟨o, List.mem_cons_of_mem _ ho, hc⟩
-      · intro hok m o' h
-        rcases List.mem_cons.mp h with h | h
-        · injection h with h1 h2; subst h1; subst h2
-          exact ⟨o0, List.mem_cons_self .., rfl, hs⟩
-        · obtain ⟨o, ho, hc⟩ := ib hok m o' h
-          exact ⟨o, List.mem_cons_of_mem _ ho, hc⟩
-
 theorem ObjOK.dropInst {hm hm' : HM} {o : Obj} (h : ObjOK hm o) (e : Name) (hne : e ≠ hm.attr)
     (ha : hm'.attr = hm.attr) (hs : hm'.states = hm.states)
     (he : ∀ e' ∈ keys hm.events, e' ≠ e → e' ∈ keys hm'.events) : ObjOK hm' (o.dropInst e) := by
@@ -693,6 +655,35 @@ theorem ObjOK.dropInst {hm hm' : HM} {o : Obj} (h : ObjOK hm o) (e : Name) (hne 
   · rw [ha]
     obtain ⟨s, hs'⟩ := h.st
     exact ⟨s, by simp only [Obj.dropInst, kget_kdel_ne _ _ _ (Ne.symm hne)]; exact hs'⟩
+
+/-- `_remove_trigger_from_model` either leaves the object alone or drops the machine's own entry -/
+theorem removeTrigger_cases (e : Name) (o : Obj) :
+    (removeTriggerFromModel e o = o ∧ ∀ b, kget e o.inst = some b → machineOwned e b = false) ∨
+    (removeTriggerFromModel e o = o.dropInst e ∧ ∃ b, kget e o.inst = some b ∧ machineOwned e b = true) := by
+  unfold removeTriggerFromModel
+  cases hk : kget e o.inst with
+  | none => exact Or.inl ⟨rfl, fun b hb => by cases hb⟩
+  | some b =>
+    cases hb : machineOwned e b with
+    | true => exact Or.inr ⟨by simp [hb], b, rfl, hb⟩
+    | false => exact Or.inl ⟨by simp [hb], fun b' hb' => by injection hb' with hb'; subst hb'; exact hb⟩
+
+theorem ObjOK.removeTrigger {hm hm' : HM} {o : Obj} (h : ObjOK hm o) (e : Name) (hne : e ≠ hm.attr)
+    (ha : hm'.attr = hm.attr) (hs : hm'.states = hm.states)
+    (he : ∀ e' ∈ keys hm.events, e' ≠ e → e' ∈ keys hm'.events) : ObjOK hm' (removeTriggerFromModel e o) := by
+  rcases removeTrigger_cases e o with ⟨h1, hno⟩ | ⟨h1, _⟩
+  · rw [h1]
+    refine ⟨h.cls, ?_, by rw [ha]; exact h.st⟩
+    intro n b hb
+    have ok := h.inst n b hb
+    cases b <;> simp only [OKB, ha, hs] at ok ⊢ <;> try exact ok
+    refine ⟨ok.1, he _ ok.2 ?_⟩
+    intro heq
+    have hn : n = e := ok.1.trans heq
+    subst hn
+    have := hno _ hb
+    simp [machineOwned, heq] at this
+  · rw [h1]; exact h.dropInst e hne ha hs he
 
 theorem Inv.removeTransition {hm : HM} (h : Inv hm) (e : Name) (src dst : Option Name) :
     Inv (removeTransition hm e src dst).1 := by
@@ -710,34 +701,27 @@ theorem Inv.removeTransition {hm : HM} (h : Inv hm) (e : Name) (src dst : Option
         (keys_kset_of_mem _ hmem) rfl rfl
     | nil =>
       simp only
-      obtain ⟨ik, ia, ib⟩ := delLoop_spec e hm.objs
-      split
-      · rename_i hok
-        refine ⟨h.attrOK, ?_, ?_, h.init, by show (keys (delLoop e hm.objs).1).Nodup; rw [ik]; exact h.nodupM, ?_, h.nodupS⟩
-        · intro m o' hmo
-          obtain ⟨o, ho, rfl, _⟩ := ib hok m o' hmo
-          exact (h.objs m o ho).dropInst e hne rfl rfl (by
-            intro e' he' hne'; show e' ∈ keys (kdel e hm.events); exact (mem_keys_kdel e e' hm.events).mpr ⟨he', hne'⟩)
-        · intro e' he'
-          have : e' ∈ keys (kdel e hm.events) := he'
-          exact h.evNe e' ((mem_keys_kdel e e' hm.events).mp this).1
-        · show (keys (kdel e hm.events)).Nodup
-          have hsub : List.Sublist (keys (kdel e hm.events)) (keys hm.events) := by
-            clear hk hmem hf ik ia ib
-            induction hm.events with
-            | nil => exact List.Sublist.slnil
-            | cons hd t ih =>
-              obtain ⟨k0, v0⟩ := hd
-              by_cases hk0 : k0 = e
-              · simp only [kdel, hk0, if_true, keys, List.map_cons]; exact List.Sublist.cons _ ih
-              · simp only [kdel, hk0, if_false, keys, List.map_cons]; exact List.Sublist.cons_cons _ ih
-          exact List.Nodup.sublist hsub h.nodupE
-      · refine h.of_parts rfl rfl rfl h.init ?_ (by show (keys (delLoop e hm.objs).1).Nodup; rw [ik]; exact h.nodupM)
-        intro m o' hmo
-        obtain ⟨o, ho, hc⟩ := ia m o' hmo
-        rcases hc with h1 | ⟨h1, _⟩
-        · rw [h1]; exact ⟨(h.objs m o ho).cls, (h.objs m o ho).inst, (h.objs m o ho).st⟩
-        · rw [h1]; exact (h.objs m o ho).dropInst e hne rfl rfl (fun e' he' _ => he')
+      refine ⟨h.attrOK, ?_, ?_, h.init, ?_, ?_, h.nodupS⟩
+      · intro m o' hmo
+        obtain ⟨o, ho, rfl⟩ := mem_map_snd (f := removeTriggerFromModel e) hmo
+        exact (h.objs m o ho).removeTrigger e hne rfl rfl (by
+          intro e' he' hne'; show e' ∈ keys (kdel e hm.events); exact (mem_keys_kdel e e' hm.events).mpr ⟨he', hne'⟩)
+      · intro e' he'
+        have : e' ∈ keys (kdel e hm.events) := he'
+        exact h.evNe e' ((mem_keys_kdel e e' hm.events).mp this).1
+      · show (keys (hm.objs.map fun p => (p.1, removeTriggerFromModel e p.2))).Nodup
+        rw [keys_map_snd]; exact h.nodupM
+      · show (keys (kdel e hm.events)).Nodup
+        have hsub : List.Sublist (keys (kdel e hm.events)) (keys hm.events) := by
+          clear hk hmem hf
+          induction hm.events with
+          | nil => exact List.Sublist.slnil
+          | cons hd t ih =>
+            obtain ⟨k0, v0⟩ := hd
+            by_cases hk0 : k0 = e
+            · simp only [kdel, hk0, if_true, keys, List.map_cons]; exact List.Sublist.cons _ ih
+            · simp only [kdel, hk0, if_false, keys, List.map_cons]; exact List.Sublist.cons_cons _ ih
+        exact List.Nodup.sublist hsub h.nodupE
 
 /-! #### events -/
 
@@ -883,7 +867,7 @@ theorem removeTransition_consts (hm : HM) (e : Name) (src dst : Option Name) :
   split
   · exact SameConsts.refl _
   · split
-    · simp only; split <;> exact ⟨rfl, rfl, rfl⟩
+    · exact ⟨rfl, rfl, rfl⟩
     · exact ⟨rfl, rfl, rfl⟩
 
 theorem fire_consts (hm : HM) (m : Nat) (e : Name) : SameConsts hm (fire hm m e).1 := by
@@ -968,46 +952,61 @@ theorem KeptFrom.setState {attr : Name} {o0 o : Obj} (h : KeptFrom attr o0 o) (b
     KeptFrom attr o0 (o.setattr attr b) :=
   ⟨h.cls, fun n id hn h0 => by rw [getattr_setattr_ne _ _ _ _ hn]; exact h.user n id hn h0⟩
 
-theorem KeptFrom.dropInst {attr : Name} {o0 o : Obj} (h : KeptFrom attr o0 o) (e : Name) (he : o0.getattr e = none) :
-    KeptFrom attr o0 (o.dropInst e) := by
-  refine ⟨h.cls, ?_⟩
-  intro n id hn h0
-  by_cases hne : n = e
-  · subst hne; rw [he] at h0; cases h0
-  · rw [getattr_dropInst_ne _ _ _ hne]; exact h.user n id hn h0
+theorem KeptFrom.removeTrigger {attr : Name} {o0 o : Obj} (h : KeptFrom attr o0 o) (e : Name) :
+    KeptFrom attr o0 (removeTriggerFromModel e o) := by
+  rcases removeTrigger_cases e o with ⟨h1, _⟩ | ⟨h1, b, hb, hown⟩
+  · rw [h1]; exact h
+  · rw [h1]
+    refine ⟨h.cls, ?_⟩
+    intro n id hn h0
+    have hu := h.user n id hn h0
+    by_cases hne : n = e
+    · subst hne
+      have : o.getattr n = some b := by simp [Obj.getattr, hb]
+      rw [this] at hu; injection hu with hu; subst hu
+      simp [machineOwned] at hown
+    · rw [getattr_dropInst_ne _ _ _ hne]; exact hu
+
+theorem Bnd.removeTrigger_ne {o : Obj} {n' : Name} (h : Bnd o n') (e : Name) (hn : n' ≠ e) :
+    Bnd (removeTriggerFromModel e o) n' := by
+  rcases removeTrigger_cases e o with ⟨h1, _⟩ | ⟨h1, _⟩
+  · rw [h1]; exact h
+  · rw [h1]; exact h.dropInst_ne e hn
 
 /-- per registered model of a machine without `model_override`; `P m o0` says "`o0` is the object
-that was handed to `add_model` for `m`" -/
-structure FObj (P : Nat → Obj → Prop) (hm : HM) (m : Nat) (o : Obj) : Prop where
+that was handed to `add_model` for `m`"; `hyg` = no removed event is named like an `is_` helper or `trigger` -/
+structure FObj (P : Nat → Obj → Prop) (hyg : Prop) (hm : HM) (m : Nat) (o : Obj) : Prop where
   orig : ∃ o0, P m o0 ∧ KeptFrom hm.attr o0 o
-  isB : ∀ s ∈ hm.states, Bnd o (isName hm.attr s)
+  /-- under name hygiene of the removed events (`hyg`): the `is_` helpers … -/
+  isB : hyg → ∀ s ∈ hm.states, Bnd o (isName hm.attr s)
   evB : ∀ e ∈ keys hm.events, Bnd o e
-  trB : Bnd o sTrigger
+  /-- … and `trigger` -/
+  trB : hyg → Bnd o sTrigger
 
-def FInv (P : Nat → Obj → Prop) (hm : HM) : Prop := ∀ m o, (m, o) ∈ hm.objs → FObj P hm m o
+def FInv (P : Nat → Obj → Prop) (hyg : Prop) (hm : HM) : Prop := ∀ m o, (m, o) ∈ hm.objs → FObj P hyg hm m o
 
-theorem FObj.addTrigger {P : Nat → Obj → Prop} {hm hm' : HM} {m : Nat} {o : Obj} (h : FObj P hm m o) (e : Name)
+theorem FObj.addTrigger {P : Nat → Obj → Prop} {hyg : Prop} {hm hm' : HM} {m : Nat} {o : Obj} (h : FObj P hyg hm m o) (e : Name)
     (ha : hm'.attr = hm.attr) (hs : hm'.states = hm.states)
-    (hk : ∀ e' ∈ keys hm'.events, e' ∈ keys hm.events ∨ e' = e) : FObj P hm' m (addTriggerToModel false e o) := by
+    (hk : ∀ e' ∈ keys hm'.events, e' ∈ keys hm.events ∨ e' = e) : FObj P hyg hm' m (addTriggerToModel false e o) := by
   unfold addTriggerToModel
   refine ⟨?_, ?_, ?_, ?_⟩
   · obtain ⟨o0, hp, hkf⟩ := h.orig
     exact ⟨o0, hp, by rw [ha]; exact (hkf.checkedAssign _ _).checkedAssign _ _⟩
-  · intro s hs'; rw [ha]; rw [hs] at hs'
-    exact ((h.isB s hs').checkedAssign_other _ _).checkedAssign_other _ _
+  · intro hh s hs'; rw [ha]; rw [hs] at hs'
+    exact ((h.isB hh s hs').checkedAssign_other _ _).checkedAssign_other _ _
   · intro e' he'
     rcases hk e' he' with h1 | h1
     · exact ((h.evB e' h1).checkedAssign_other _ _).checkedAssign_other _ _
     · subst h1; exact (Bnd.checkedAssign_self o e' (.trigger e') (by simp)).checkedAssign_other _ _
-  · exact (h.trB.checkedAssign_other _ _).checkedAssign_other _ _
+  · intro hh; exact ((h.trB hh).checkedAssign_other _ _).checkedAssign_other _ _
 
-theorem FObj.mono {P : Nat → Obj → Prop} {hm hm' : HM} {m : Nat} {o : Obj} (h : FObj P hm m o)
+theorem FObj.mono {P : Nat → Obj → Prop} {hyg : Prop} {hm hm' : HM} {m : Nat} {o : Obj} (h : FObj P hyg hm m o)
     (ha : hm'.attr = hm.attr) (hs : hm'.states = hm.states) (hk : ∀ e' ∈ keys hm'.events, e' ∈ keys hm.events) :
-    FObj P hm' m o :=
+    FObj P hyg hm' m o :=
   ⟨by rw [ha]; exact h.orig, by rw [ha, hs]; exact h.isB, fun e he => h.evB e (hk e he), h.trB⟩
 
-theorem FInv.addTransition {P : Nat → Obj → Prop} {hm : HM} (h : FInv P hm) (hov : hm.override = false)
-    (e : Name) (src : Src) (dst : Dst) (pass : Bool) : FInv P (addTransition hm e src dst pass).1 := by
+theorem FInv.addTransition {P : Nat → Obj → Prop} {hyg : Prop} {hm : HM} (h : FInv P hyg hm) (hov : hm.override = false)
+    (e : Name) (src : Src) (dst : Dst) (pass : Bool) : FInv P hyg (addTransition hm e src dst pass).1 := by
   by_cases hne : e = hm.attr
   · subst hne; rw [addTransition_attr_raises]; exact h
   · have sh := (addTransition_shape hm e src dst pass hne).2.1
@@ -1025,8 +1024,8 @@ theorem FInv.addTransition {P : Nat → Obj → Prop} {hm : HM} (h : FInv P hm) 
         · exact Or.inl h1
         · exact Or.inr (by simpa using h1))
 
-theorem autoLoop_finv {P : Nat → Obj → Prop} (s : Name) : ∀ (l : List Name) (h : HM), h.override = false → FInv P h →
-    FInv P (autoLoop s l h).1
+theorem autoLoop_finv {P : Nat → Obj → Prop} {hyg : Prop} (s : Name) : ∀ (l : List Name) (h : HM), h.override = false → FInv P hyg h →
+    FInv P hyg (autoLoop s l h).1
   | [], h, _, hi => hi
   | a :: r, h, hov, hi => by
     unfold autoLoop
@@ -1039,9 +1038,9 @@ theorem autoLoop_finv {P : Nat → Obj → Prop} (s : Name) : ∀ (l : List Name
       | none => exact autoLoop_finv s r h' (hc.override.trans hov) h1
       | some e => exact h1
 
-theorem FInv.addState {P : Nat → Obj → Prop} {hm : HM} (h : FInv P hm) (hov : hm.override = false) (s : Name) :
-    FInv P (addState hm s).1 := by
-  have hcore : FInv P (addStateCore hm s) := by
+theorem FInv.addState {P : Nat → Obj → Prop} {hyg : Prop} {hm : HM} (h : FInv P hyg hm) (hov : hm.override = false) (s : Name) :
+    FInv P hyg (addState hm s).1 := by
+  have hcore : FInv P hyg (addStateCore hm s) := by
     intro m o hmo
     obtain ⟨o0, h0, rfl⟩ := mem_map_snd (f := addModelToState hm.override hm.attr s) hmo
     have f0 := h m o0 h0
@@ -1050,7 +1049,7 @@ theorem FInv.addState {P : Nat → Obj → Prop} {hm : HM} (h : FInv P hm) (hov 
     refine ⟨?_, ?_, ?_, ?_⟩
     · obtain ⟨oo, hp, hkf⟩ := f0.orig
       exact ⟨oo, hp, hkf.checkedAssign _ _⟩
-    · intro s' hs'
+    · intro hh s' hs'
       have hs'' : s' ∈ hm.states ∨ s' = s := by
         simp only [Helpers.addStateCore] at hs'
         split at hs'
@@ -1059,16 +1058,16 @@ theorem FInv.addState {P : Nat → Obj → Prop} {hm : HM} (h : FInv P hm) (hov 
           · exact Or.inl h1
           · exact Or.inr (by simpa using h1)
       rcases hs'' with h1 | h1
-      · exact (f0.isB s' h1).checkedAssign_other _ _
+      · exact (f0.isB hh s' h1).checkedAssign_other _ _
       · subst h1; exact Bnd.checkedAssign_self _ _ _ (by simp)
     · intro e he; exact (f0.evB e he).checkedAssign_other _ _
-    · exact f0.trB.checkedAssign_other _ _
+    · intro hh; exact (f0.trB hh).checkedAssign_other _ _
   rw [addState_eq]; split
   · exact autoLoop_finv s _ _ hov hcore
   · exact hcore
 
-theorem FInv.setInitial {P : Nat → Obj → Prop} {hm : HM} (h : FInv P hm) (hov : hm.override = false) (s : Name) :
-    FInv P (setInitial hm s).1 := by
+theorem FInv.setInitial {P : Nat → Obj → Prop} {hyg : Prop} {hm : HM} (h : FInv P hyg hm) (hov : hm.override = false) (s : Name) :
+    FInv P hyg (setInitial hm s).1 := by
   unfold Helpers.setInitial
   by_cases hs : s ∈ hm.states
   · simp only [hs, if_true]
@@ -1129,8 +1128,8 @@ theorem fold_addModelToState_kept {attr : Name} {o0 : Obj} : ∀ (l : List Name)
     simp only [List.foldl_cons]
     exact fold_addModelToState_kept r _ (by unfold addModelToState; exact h.checkedAssign _ _)
 
-theorem FInv.addModel {P : Nat → Obj → Prop} {hm : HM} (h : FInv P hm) (hov : hm.override = false)
-    (m : Nat) (o : Obj) (hp : P m o) : FInv P (addModel hm m o).1 := by
+theorem FInv.addModel {P : Nat → Obj → Prop} {hyg : Prop} {hm : HM} (h : FInv P hyg hm) (hov : hm.override = false)
+    (m : Nat) (o : Obj) (hp : P m o) : FInv P hyg (addModel hm m o).1 := by
   unfold Helpers.addModel
   cases hi : hm.initial with
   | none => exact h
@@ -1166,7 +1165,7 @@ theorem FInv.addModel {P : Nat → Obj → Prop} {hm : HM} (h : FInv P hm) (hov 
             rw [hov]
             exact fold_addModelToState_kept _ _ (fold_addTrigger_kept _ _
               (((KeptFrom.refl _ o).checkedAssign _ _).checkedAssign _ _))
-          · intro s hs
+          · intro _ s hs
             exact hne _ (isName_ne_attr _ _) (hb _ (Or.inr (Or.inr ⟨s, hs, rfl⟩)))
           · intro e he
             by_cases hea : e = hm.attr
@@ -1174,27 +1173,18 @@ theorem FInv.addModel {P : Nat → Obj → Prop} {hm : HM} (h : FInv P hm) (hov 
               show ((bindModel hm o).setattr hm.attr (.value i)).unbound hm.attr = false
               simp [Obj.unbound, getattr_setattr_self]
             · exact hne _ hea (hb _ (Or.inr (Or.inl he)))
-          · by_cases hta : sTrigger = hm.attr
+          · intro _
+            by_cases hta : sTrigger = hm.attr
             · show ((bindModel hm o).setattr hm.attr (.value i)).unbound sTrigger = false
               rw [hta]; simp [Obj.unbound, getattr_setattr_self]
             · exact hne _ hta (hb _ (Or.inl rfl))
       · exact h
 
-theorem delLoop_ok (e : Name) : ∀ (l : List (Nat × Obj)), (∀ m o, (m, o) ∈ l → (kget e o.inst).isSome) →
-    (delLoop e l).2 = true
-  | [], _ => rfl
-  | (m0, o0) :: r, h => by
-    unfold delLoop
-    have h0 : (kget e o0.inst).isSome := h m0 o0 (List.mem_cons_self ..)
-    simp only [Obj.delattr, h0, if_true]
-    exact delLoop_ok e r (fun m o hmo => h m o (List.mem_cons_of_mem _ hmo))
-
-/-- name hygiene of a removal + the exclusion of finding F-C11-remove-transition-delattr:
-the removed event is not named like an `is_` helper or `trigger`, and no model defined that name itself -/
-structure RemOK (P : Nat → Obj → Prop) (e : Name) : Prop where
+/-- name hygiene of a removal: the removed event is not named like an `is_` helper or like `trigger`
+(`_remove_trigger_from_model` deletes whatever partial of the machine sits under the event's name) -/
+structure RemOK (e : Name) : Prop where
   notIs : ¬ sIs <+: e
   notTrigger : e ≠ sTrigger
-  undefinedOnModels : ∀ m o0, P m o0 → o0.getattr e = none
 
 theorem getattr_none_split {o : Obj} {n : Name} (h : o.getattr n = none) : kget n o.inst = none ∧ kget n o.cls = none := by
   unfold Obj.getattr at h
@@ -1204,54 +1194,38 @@ theorem getattr_none_split {o : Obj} {n : Name} (h : o.getattr n = none) : kget 
 
 theorem isName_prefix (attr s : Name) : sIs <+: isName attr s := List.prefix_append _ _
 
-theorem FInv.removeTransition {P : Nat → Obj → Prop} {hm : HM} (h : FInv P hm) (e : Name) (src dst : Option Name)
-    (hr : RemOK P e) : FInv P (removeTransition hm e src dst).1 ∧
-      ((removeTransition hm e src dst).2 = some .attributeError → False) := by
+theorem FInv.removeTransition {P : Nat → Obj → Prop} {hyg : Prop} {hm : HM} (h : FInv P hyg hm) (e : Name)
+    (src dst : Option Name) (hr : hyg → RemOK e) : FInv P hyg (removeTransition hm e src dst).1 := by
   unfold Helpers.removeTransition
   cases hk : kget e hm.events with
-  | none => exact ⟨h, by intro h; cases h⟩
+  | none => exact h
   | some ts =>
     have hmem : e ∈ keys hm.events := mem_keys_of_kget hk
     simp only
     cases hf : ts.filter (keepTr src dst) with
     | cons t keep =>
       simp only
-      refine ⟨?_, by intro h; cases h⟩
       intro m o hmo
       exact (h m o hmo).mono rfl rfl (by
         intro e' he'; have : e' ∈ keys (kset e (t :: keep) hm.events) := he'
         rwa [keys_kset_of_mem _ hmem] at this)
     | nil =>
       simp only
-      obtain ⟨ik, ia, ib⟩ := delLoop_spec e hm.objs
-      have hall : ∀ m o, (m, o) ∈ hm.objs → (kget e o.inst).isSome := by
-        intro m o hmo
-        have f := h m o hmo
-        obtain ⟨o0, hp, hkf⟩ := f.orig
-        have hc : kget e o.cls = none := by rw [hkf.cls]; exact (getattr_none_split (hr.undefinedOnModels m o0 hp)).2
-        have hb := f.evB e hmem
-        unfold Bnd Obj.unbound Obj.getattr at hb
-        cases hi : kget e o.inst with
-        | some b => rfl
-        | none => simp [hi, hc] at hb
-      have hok := delLoop_ok e hm.objs hall
-      simp only [hok, if_true]
-      refine ⟨?_, by intro h; cases h⟩
       intro m o' hmo
-      obtain ⟨o, ho, rfl, _⟩ := ib hok m o' hmo
+      obtain ⟨o, ho, rfl⟩ := mem_map_snd (f := removeTriggerFromModel e) hmo
       have f := h m o ho
       refine ⟨?_, ?_, ?_, ?_⟩
       · obtain ⟨o0, hp, hkf⟩ := f.orig
-        exact ⟨o0, hp, hkf.dropInst e (hr.undefinedOnModels m o0 hp)⟩
-      · intro s hs
-        exact (f.isB s hs).dropInst_ne e (by intro he; exact hr.notIs (he ▸ isName_prefix _ _))
+        exact ⟨o0, hp, hkf.removeTrigger e⟩
+      · intro hh s hs
+        exact (f.isB hh s hs).removeTrigger_ne e (by intro he; exact (hr hh).notIs (he ▸ isName_prefix _ _))
       · intro e' he'
         have := (mem_keys_kdel e e' hm.events).mp he'
-        exact (f.evB e' this.1).dropInst_ne e this.2
-      · exact f.trB.dropInst_ne e (Ne.symm hr.notTrigger)
+        exact (f.evB e' this.1).removeTrigger_ne e this.2
+      · intro hh; exact (f.trB hh).removeTrigger_ne e (Ne.symm (hr hh).notTrigger)
 
-theorem FInv.fire {P : Nat → Obj → Prop} {hm : HM} (h : FInv P hm) (m : Nat) (e : Name) :
-    FInv P (fire hm m e).1 := by
+theorem FInv.fire {P : Nat → Obj → Prop} {hyg : Prop} {hm : HM} (h : FInv P hyg hm) (m : Nat) (e : Name) :
+    FInv P hyg (fire hm m e).1 := by
   unfold Helpers.fire
   split
   · exact h
@@ -1277,42 +1251,41 @@ theorem FInv.fire {P : Nat → Obj → Prop} {hm : HM} (h : FInv P hm) (m : Nat)
                     refine ⟨?_, ?_, ?_, ?_⟩
                     · obtain ⟨o0, hp, hkf⟩ := f.orig
                       exact ⟨o0, hp, hkf.setState _⟩
-                    · intro s hs; exact (f.isB s hs).setattr_ne _ _ (isName_ne_attr _ _)
+                    · intro hh s hs; exact (f.isB hh s hs).setattr_ne _ _ (isName_ne_attr _ _)
                     · intro e' he'
                       by_cases hea : e' = hm.attr
                       · subst hea
                         show (o.setattr hm.attr (.value d)).unbound hm.attr = false
                         simp [Obj.unbound, getattr_setattr_self]
                       · exact (f.evB e' he').setattr_ne _ _ hea
-                    · by_cases hta : sTrigger = hm.attr
+                    · intro hh
+                      by_cases hta : sTrigger = hm.attr
                       · show (o.setattr hm.attr (.value d)).unbound sTrigger = false
                         rw [hta]; simp [Obj.unbound, getattr_setattr_self]
-                      · exact f.trB.setattr_ne _ _ hta
+                      · exact (f.trB hh).setattr_ne _ _ hta
                   · exact (h m' o' h').mono rfl rfl (fun _ h => h)
                 · exact h
 
-/-- hypotheses on a history for machines without `model_override` -/
-structure FOps (ops all : List Op) : Prop where
-  rem : ∀ e src dst, Op.removeTransition e src dst ∈ ops → RemOK (fun m o => Op.addModel m o ∈ all) e
-  sub : ∀ op ∈ ops, op ∈ all
+/-- name hygiene of a history (needed only for the `is_` helpers and `trigger`): no removed event is named like
+an `is_` helper or like `trigger` -/
+def RemHyg (ops : List Op) : Prop := ∀ e src dst, Op.removeTransition e src dst ∈ ops → RemOK e
 
-theorem FInv.run (all : List Op) : ∀ (ops : List Op) (hm : HM), hm.override = false →
-    FInv (fun m o => Op.addModel m o ∈ all) hm → FOps ops all →
-    FInv (fun m o => Op.addModel m o ∈ all) (run hm ops)
-  | [], _, _, h, _ => h
-  | op :: r, hm, hov, h, hf => by
+theorem FInv.run {hyg : Prop} (all : List Op) : ∀ (ops : List Op) (hm : HM), hm.override = false →
+    FInv (fun m o => Op.addModel m o ∈ all) hyg hm → (hyg → RemHyg ops) → (∀ op ∈ ops, op ∈ all) →
+    FInv (fun m o => Op.addModel m o ∈ all) hyg (run hm ops)
+  | [], _, _, h, _, _ => h
+  | op :: r, hm, hov, h, hf, hsub => by
     unfold Helpers.run
     have hc := applyOp_consts hm op
-    refine FInv.run all r _ (hc.override.trans hov) ?_ ⟨fun e s d hm' => hf.rem e s d (List.mem_cons_of_mem _ hm'),
-      fun op' h' => hf.sub op' (List.mem_cons_of_mem _ h')⟩
+    refine FInv.run all r _ (hc.override.trans hov) ?_ (fun hh e s d hm' => hf hh e s d (List.mem_cons_of_mem _ hm'))
+      (fun op' h' => hsub op' (List.mem_cons_of_mem _ h'))
     cases op with
     | setInitial s => exact h.setInitial hov s
     | addState s => exact h.addState hov s
     | addTransition e src dst pass => exact h.addTransition hov e src dst pass
-    | removeTransition e src dst => exact (h.removeTransition e src dst (hf.rem e src dst (List.mem_cons_self ..))).1
-    | addModel m o => exact h.addModel hov m o (hf.sub _ (List.mem_cons_self ..))
+    | removeTransition e src dst => exact h.removeTransition e src dst (fun hh => hf hh e src dst (List.mem_cons_self ..))
+    | addModel m o => exact h.addModel hov m o (hsub _ (List.mem_cons_self ..))
     | fire m e => exact h.fire m e
-
 
 /-! ### auto transitions -/
 
@@ -1551,9 +1524,7 @@ theorem AutoInv.removeTransition {hm : HM} (h : AutoInv hm) (e : Name) (src dst 
       exact hkeep _ (fun e' he' => kget_kset_ne _ _ _ _ he') _
     | nil =>
       simp only
-      split
-      · exact hkeep _ (fun e' he' => kget_kdel_ne _ _ _ he') _
-      · exact hkeep _ (fun _ _ => rfl) _
+      exact hkeep _ (fun e' he' => kget_kdel_ne _ _ _ he') _
 
 /-- name hygiene of a history: `add_transition` / `remove_transition` never name an event `to_…` -/
 def UserEvents (ops : List Op) : Prop :=
@@ -1750,96 +1721,44 @@ def PathStates (h : HSM) : Path → Path → Prop
   | _, [] => True
   | pre, x :: tl => (pre ++ [x]) ∈ h.states ∧ PathStates h (pre ++ [x]) tl
 
-/-- no false positives: whatever `get_nested_triggers` lists does fire -/
-theorem nestedTriggers_sound (h : HSM) (hn : h.ScopesNodup) (e : Name) : ∀ (rel pre : Path),
-    e ∈ nestedTriggers h pre rel → firesIn h pre rel e = true
-  | [], _, hm => by simp [nestedTriggers] at hm
-  | x :: tl, pre, hm => by
-    unfold nestedTriggers at hm
-    unfold firesIn
-    rcases List.mem_append.mp hm with h1 | h1
-    · have := (mem_scopeTriggers (hn pre)).mp h1
-      simp only [Bool.or_eq_true, List.any_eq_true]
-      exact Or.inl ⟨x :: tl, self_mem_prefixesDesc _ (by simp), this⟩
-    · split at h1
-      · rename_i hc
-        have := nestedTriggers_sound h hn e tl (pre ++ [x]) h1
-        simp only [Bool.or_eq_true, Bool.and_eq_true]
-        exact Or.inr ⟨by simpa using hc.1, this⟩
-      · cases h1
-
-/-- completeness below the root, outside the finding: in a nested scope only the full remaining path
-is consulted, so an event declared there on a proper ancestor is missed -/
-theorem nestedTriggers_complete (h : HSM) (hn : h.ScopesNodup) (e : Name) : ∀ (rel pre : Path), pre ≠ [] →
-    localAncestorDecl h pre rel = false → PathStates h pre rel → firesIn h pre rel e = true →
-    e ∈ nestedTriggers h pre rel
-  | [], _, _, _, _, hf => by simp [firesIn] at hf
-  | x :: tl, pre, hpre, hl, hp, hf => by
-    unfold localAncestorDecl at hl
-    unfold firesIn at hf
-    unfold nestedTriggers
-    simp only [Bool.or_eq_false_iff, Bool.and_eq_false_iff] at hl
-    simp only [Bool.or_eq_true, Bool.and_eq_true, List.any_eq_true] at hf
-    rcases hf with ⟨q, hq, hd⟩ | ⟨htl, hsub⟩
-    · apply List.mem_append_left
-      have hqe : q = x :: tl := by
-        rcases hl.1 with h1 | h1
-        · simp [hpre] at h1
-        · -- the scope declares `e` on `q`, a non-empty prefix: it must be the whole remaining path
-          apply Classical.byContradiction
-          intro hne
-          have hk : ∃ srcs, kget e (h.scopeEvents pre) = some srcs ∧ srcs.contains q = true := by
-            unfold declared at hd
-            cases hk : kget e (h.scopeEvents pre) with
-            | none => simp [hk] at hd
-            | some srcs => exact ⟨srcs, rfl, by simpa [hk] using hd⟩
-          obtain ⟨srcs, hk, hc⟩ := hk
-          have hall := List.any_eq_false.mp h1 (e, srcs) (kget_mem _ _ _ hk)
-          have hq' : q ∈ srcs := by simpa using hc
-          have : (srcs.any fun q => decide (q ≠ x :: tl) && (prefixesDesc (x :: tl)).contains q) = true :=
-            List.any_eq_true.mpr ⟨q, hq', by simp [hne, hq]⟩
-          exact hall this
-      subst hqe
-      exact (mem_scopeTriggers (hn pre)).mpr hd
-    · apply List.mem_append_right
-      have htl' : tl ≠ [] := by simpa using htl
-      cases tl with
-      | nil => exact absurd rfl htl'
-      | cons y tl' =>
-        have hst : (pre ++ [x]) ∈ h.states := hp.1
-        simp only [ne_eq, reduceCtorEq, not_false_eq_true, hst, and_self, if_true]
-        refine nestedTriggers_complete h hn e (y :: tl') (pre ++ [x]) (by simp) ?_ hp.2 hsub
-        rcases hl.2 with h1 | h1
-        · simp at h1
-        · exact h1
-
+/-- `_get_scoped_triggers` lists exactly the events that are offered a transition in the scope `pre`
+or below it when the model is in `pre ++ rel` -/
+theorem scopedTriggers_iff (h : HSM) (hn : h.ScopesNodup) (e : Name) : ∀ (rel pre : Path), PathStates h pre rel →
+    (e ∈ scopedTriggers h pre rel ↔ firesIn h pre rel e = true)
+  | [], _, _ => by simp [scopedTriggers, firesIn]
+  | x :: tl, pre, hp => by
+    unfold scopedTriggers firesIn
+    have hflat : e ∈ (prefixesDesc (x :: tl)).flatMap (scopeTriggers (h.scopeEvents pre)) ↔
+        (prefixesDesc (x :: tl)).any (declared (h.scopeEvents pre) e) = true := by
+      simp only [List.mem_flatMap, List.any_eq_true]
+      constructor
+      · rintro ⟨q, hq, he⟩; exact ⟨q, hq, (mem_scopeTriggers (hn pre)).mp he⟩
+      · rintro ⟨q, hq, he⟩; exact ⟨q, hq, (mem_scopeTriggers (hn pre)).mpr he⟩
+    rw [List.mem_append, hflat, Bool.or_eq_true, Bool.and_eq_true]
+    cases tl with
+    | nil => simp [scopedTriggers]
+    | cons y tl' =>
+      have hst : (pre ++ [x]) ∈ h.states := hp.1
+      have ih := scopedTriggers_iff h hn e (y :: tl') (pre ++ [x]) hp.2
+      simp only [ne_eq, reduceCtorEq, not_false_eq_true, hst, and_self, if_true, decide_true, true_and]
+      rw [ih]
 
 /-! ### decidable forms of the hypotheses on histories (for the non-vacuity examples) -/
 
-def remOKB (all : List Op) (e : Name) : Bool :=
-  !sIs.isPrefixOf e && e != sTrigger &&
-    all.all fun op => match op with
-      | .addModel _ o => (o.getattr e).isNone
-      | _ => true
-
-def fopsB (ops : List Op) : Bool :=
+def remHygB (ops : List Op) : Bool :=
   ops.all fun op => match op with
-    | .removeTransition e _ _ => remOKB ops e
+    | .removeTransition e _ _ => !sIs.isPrefixOf e && e != sTrigger
     | _ => true
 
-theorem FOps_of_B {ops : List Op} (h : fopsB ops = true) : FOps ops ops := by
-  refine ⟨?_, fun _ h => h⟩
+theorem RemHyg_of_B {ops : List Op} (h : remHygB ops = true) : RemHyg ops := by
   intro e src dst hm
-  simp only [fopsB, List.all_eq_true] at h
+  simp only [remHygB, List.all_eq_true] at h
   have := h _ hm
-  simp only [remOKB, Bool.and_eq_true, Bool.not_eq_true', bne_iff_ne, ne_eq, List.all_eq_true] at this
-  refine ⟨?_, this.1.2, ?_⟩
-  · intro hp
-    have h1 := List.isPrefixOf_iff_prefix.mpr hp
-    rw [this.1.1] at h1; cases h1
-  · intro m o0 hmo
-    have := this.2 _ hmo
-    simpa using this
+  simp only [Bool.and_eq_true, Bool.not_eq_true', bne_iff_ne, ne_eq] at this
+  refine ⟨?_, this.2⟩
+  intro hp
+  have h1 := List.isPrefixOf_iff_prefix.mpr hp
+  rw [this.1] at h1; cases h1
 
 def userEventsB (ops : List Op) : Bool :=
   ops.all fun op => match op with
@@ -1889,17 +1808,22 @@ theorem TKept.setState {attr : Name} {o0 o : Obj} (h : TKept attr o0 o) (b : Bin
     unfold Obj.unbound at this ⊢
     rw [getattr_setattr_ne _ _ _ _ hn]; exact this⟩
 
-theorem TKept.dropInst {attr : Name} {o0 o : Obj} (h : TKept attr o0 o) (e : Name)
-    (he : o0.unbound e = true → o0.getattr e = none) : TKept attr o0 (o.dropInst e) := by
-  refine ⟨h.cls, ?_⟩
-  intro n hn h0
-  by_cases hne : n = e
-  · subst hne
-    have hc : kget n o.cls = none := by rw [h.cls]; exact (getattr_none_split (he h0)).2
-    simp [Obj.unbound, Obj.getattr, Obj.dropInst, kget_kdel_self, hc]
-  · have := h.unb n hn h0
-    unfold Obj.unbound at this ⊢
-    rw [getattr_dropInst_ne _ _ _ hne]; exact this
+theorem TKept.removeTrigger {attr : Name} {o0 o : Obj} (h : TKept attr o0 o) (e : Name) :
+    TKept attr o0 (removeTriggerFromModel e o) := by
+  rcases removeTrigger_cases e o with ⟨h1, _⟩ | ⟨h1, b, hb, hown⟩
+  · rw [h1]; exact h
+  · rw [h1]
+    refine ⟨h.cls, ?_⟩
+    intro n hn h0
+    have hu := h.unb n hn h0
+    by_cases hne : n = e
+    · subst hne
+      have : o.getattr n = some b := by simp [Obj.getattr, hb]
+      unfold Obj.unbound at hu
+      rw [this] at hu
+      cases b <;> simp [machineOwned] at hown hu
+    · unfold Obj.unbound at hu ⊢
+      rw [getattr_dropInst_ne _ _ _ hne]; exact hu
 
 def TInv (P : Nat → Obj → Prop) (hm : HM) : Prop :=
   ∀ m o, (m, o) ∈ hm.objs → ∃ o0, P m o0 ∧ TKept hm.attr o0 o
@@ -1997,8 +1921,8 @@ theorem TInv.addModel {P : Nat → Obj → Prop} {hm : HM} (h : TInv P hm) (hov 
             (((TKept.refl _ o).checkedAssign _ _).checkedAssign _ _))
       · exact h
 
-theorem TInv.removeTransition {P : Nat → Obj → Prop} {hm : HM} (h : TInv P hm) (e : Name) (src dst : Option Name)
-    (hr : ∀ m o0, P m o0 → o0.unbound e = true → o0.getattr e = none) : TInv P (removeTransition hm e src dst).1 := by
+theorem TInv.removeTransition {P : Nat → Obj → Prop} {hm : HM} (h : TInv P hm) (e : Name) (src dst : Option Name) :
+    TInv P (removeTransition hm e src dst).1 := by
   unfold Helpers.removeTransition
   cases hk : kget e hm.events with
   | none => exact h
@@ -2008,15 +1932,10 @@ theorem TInv.removeTransition {P : Nat → Obj → Prop} {hm : HM} (h : TInv P h
     | cons t keep => exact h
     | nil =>
       simp only
-      obtain ⟨_, ia, _⟩ := delLoop_spec e hm.objs
-      have key : ∀ m o', (m, o') ∈ (delLoop e hm.objs).1 → ∃ o0, P m o0 ∧ TKept hm.attr o0 o' := by
-        intro m o' hmo
-        obtain ⟨o, ho, hc⟩ := ia m o' hmo
-        obtain ⟨o0, hp, hkk⟩ := h m o ho
-        rcases hc with h1 | ⟨h1, _⟩
-        · rw [h1]; exact ⟨o0, hp, hkk⟩
-        · rw [h1]; exact ⟨o0, hp, hkk.dropInst e (hr m o0 hp)⟩
-      split <;> exact key
+      intro m o' hmo
+      obtain ⟨o, ho, rfl⟩ := mem_map_snd (f := removeTriggerFromModel e) hmo
+      obtain ⟨o0, hp, hkk⟩ := h m o ho
+      exact ⟨o0, hp, hkk.removeTrigger e⟩
 
 theorem TInv.fire {P : Nat → Obj → Prop} {hm : HM} (h : TInv P hm) (m : Nat) (e : Name) :
     TInv P (fire hm m e).1 := by
@@ -2045,28 +1964,20 @@ theorem TInv.fire {P : Nat → Obj → Prop} {hm : HM} (h : TInv P hm) (m : Nat)
                   · exact h m' o' h'
                 · exact h
 
-/-- hypotheses on a history with `model_override`: a removed event is not named like an attribute a model
-defines as None (such an attribute is deleted by `delattr` and may uncover a class attribute) -/
-structure TOps (ops all : List Op) : Prop where
-  rem : ∀ e src dst, Op.removeTransition e src dst ∈ ops →
-    ∀ m o0, Op.addModel m o0 ∈ all → o0.unbound e = true → o0.getattr e = none
-  sub : ∀ op ∈ ops, op ∈ all
-
 theorem TInv.run (all : List Op) : ∀ (ops : List Op) (hm : HM), hm.override = true →
-    TInv (fun m o => Op.addModel m o ∈ all) hm → TOps ops all →
+    TInv (fun m o => Op.addModel m o ∈ all) hm → (∀ op ∈ ops, op ∈ all) →
     TInv (fun m o => Op.addModel m o ∈ all) (run hm ops)
   | [], _, _, h, _ => h
-  | op :: r, hm, hov, h, hf => by
+  | op :: r, hm, hov, h, hsub => by
     unfold Helpers.run
     have hc := applyOp_consts hm op
-    refine TInv.run all r _ (hc.override.trans hov) ?_ ⟨fun e s d hm' => hf.rem e s d (List.mem_cons_of_mem _ hm'),
-      fun op' h' => hf.sub op' (List.mem_cons_of_mem _ h')⟩
+    refine TInv.run all r _ (hc.override.trans hov) ?_ (fun op' h' => hsub op' (List.mem_cons_of_mem _ h'))
     cases op with
     | setInitial s => exact h.setInitial hov s
     | addState s => exact h.addState hov s
     | addTransition e src dst pass => exact h.addTransition hov e src dst pass
-    | removeTransition e src dst => exact h.removeTransition e src dst (hf.rem e src dst (List.mem_cons_self ..))
-    | addModel m o => exact h.addModel hov m o (hf.sub _ (List.mem_cons_self ..))
+    | removeTransition e src dst => exact h.removeTransition e src dst
+    | addModel m o => exact h.addModel hov m o (hsub _ (List.mem_cons_self ..))
     | fire m e => exact h.fire m e
 
 end Helpers
